@@ -226,7 +226,11 @@ func (c *Ctx) Finish() int {
 	}
 	dir := filepath.Join(VerifDir, "replays", c.ID)
 	os.MkdirAll(dir, 0755)
-	for _, v := range c.violations {
+	for i, v := range c.violations {
+		if i == 40 {
+			fmt.Printf("... %d more violations (all are counted in the evidence file; replay files are written for the first 40)\n", len(c.violations)-40)
+			break
+		}
 		h := sha1.Sum([]byte(v.Key))
 		p := filepath.Join(dir, hex.EncodeToString(h[:6])+".json")
 		b, _ := json.MarshalIndent(v, "", " ")
